@@ -71,7 +71,11 @@ class FilesystemIsolation(ContextDecorator):
     @staticmethod
     def _abspath(path: os.PathLike | str) -> str:
         """Convert a path to an absolute path."""
-        return _normalize_path_cached(str(path))
+        try:
+            # Paths may be given as bytes, for which str() yields "b'...'"
+            return _normalize_path_cached(os.fsdecode(path))
+        except TypeError:
+            return _normalize_path_cached(str(path))
 
     def _record_created(self, *paths: os.PathLike | str | None) -> None:
         """Record newly created paths. Uses set.update for fewer allocations."""
